@@ -45,23 +45,26 @@ theorem runChecks_map_lift {α β} (f : β → α) (l : List (Check α)) (x : β
     simp only [List.map, runChecks, lift]
     cases c.run (f x) <;> simp [ih]
 
-theorem lookupKey_mem {l : List (String × Key)} {kid : String} {k : Key} (h : lookupKey l kid = some k) :
-    (kid, k) ∈ l := by
+theorem lookupKey_mem {base : Option String} {l : List (String × Key)} {kid : String} {k : Key}
+    (h : lookupKey base l kid = some k) : ∃ id, (id, k) ∈ l ∧ keyIdMatches base id kid = true := by
   unfold lookupKey at h
-  cases hf : l.find? (fun p => p.1 == kid) with
+  cases hf : l.find? (fun p => keyIdMatches base p.1 kid) with
   | none => simp [hf] at h
   | some p =>
     simp [hf] at h
     have hm := List.mem_of_find?_eq_some hf
     have hp := List.find?_some hf
-    simp at hp
     cases p with
-    | mk a b => simp at h hp; subst h; subst hp; exact hm
+    | mk a b => simp at h; subst h; exact ⟨a, hm, hp⟩
 
-/-- a key that is the first entry under its id is found -/
-theorem lookupKey_head (kid : String) (k : Key) (rest : List (String × Key)) :
-    lookupKey ((kid, k) :: rest) kid = some k := by
-  simp [lookupKey, List.find?]
+/-- a key that is the first entry under its (absolute) id is found -/
+theorem lookupKey_head (base : Option String) (kid : String) (k : Key) (rest : List (String × Key)) :
+    lookupKey base ((kid, k) :: rest) kid = some k := by
+  simp [lookupKey, List.find?, keyIdMatches]
+
+/-- without @base only the exact id matches -/
+theorem keyIdMatches_none (id kid : String) : keyIdMatches none id kid = true ↔ id = kid := by
+  simp [keyIdMatches]
 
 theorem credValidAt_iff (cfg : Cfg) (c : Cred) (t : Time) :
     credValidAt cfg c t = true ↔ c.issued ≤ t + cfg.maxSkew ∧ ∀ e, c.expires = some e → t - cfg.maxSkew ≤ e := by
@@ -79,10 +82,11 @@ theorem proofValidAt_iff (cfg : Cfg) (p : Proof) (t : Time) :
 
 /-! ## what acceptance means -/
 
-/-- key `k` is listed under id `kid` among the assertion methods of the document that `kid`'s DID resolves to at the
-    validation time -/
+/-- key `k` is listed among the ASSERTION methods of the document that `kid`'s DID resolves to at the validation time, under
+    an id that is `kid` itself or — when the document declares an @base — the relative id that @base completes to `kid` -/
 def AuthorisedAt (E : Env) (at_ : Option Time) (kid : String) (k : Key) : Prop :=
-  ∃ d doc, E.didOfURL kid = some d ∧ E.resolve at_ d = some doc ∧ (kid, k) ∈ doc.assertion
+  ∃ d doc id, E.didOfURL kid = some d ∧ E.resolve at_ d = some doc ∧ (id, k) ∈ doc.assertion ∧
+    keyIdMatches doc.base id kid = true
 
 theorem resolveKeyByID_some {E : Env} {at_ : Option Time} {kid : String} {k : Key}
     (h : resolveKeyByID E at_ kid = some k) : AuthorisedAt E at_ kid k := by
@@ -95,7 +99,8 @@ theorem resolveKeyByID_some {E : Env} {at_ : Option Time} {kid : String} {k : Ke
     | none => simp [hr] at h
     | some doc =>
       simp only [hr] at h
-      exact ⟨d, doc, hd, hr, lookupKey_mem h⟩
+      obtain ⟨id, hm, hk⟩ := lookupKey_mem h
+      exact ⟨d, doc, id, hd, hr, hm, hk⟩
 
 /-- the linked-data proof conjuncts -/
 def LdSigned (cfg : Cfg) (P : Crypto) (E : Env) (at_ : Option Time) (issuer : String) (doc : Bytes) (s : LdDoc) : Prop :=
